@@ -76,7 +76,10 @@ IsROom(r) == IsOom(r.v)
 (*   p: parameter type; nul: null allowed; unk: unknown passed through;    *)
 (*   dyn: dynamic-typed values passed through                              *)
 Param(t, nul, unk, dyn) == [t |-> t, nul |-> nul, unk |-> unk, dyn |-> dyn]
-FnNames == {"id", "upper", "add", "cat", "nn", "fail", "len", "try", "can"}
+FnNames == {"id", "upper", "add", "cat", "nn", "fail", "len", "try", "can", "ns::id", "a::b::upper"}
+\* namespaced function names (spec.md "Function Calls": identifiers separated by "::") are looked up
+\* as one name; these two are further names of id and upper
+Canon(f) == IF f = "ns::id" THEN "id" ELSE IF f = "a::b::upper" THEN "upper" ELSE f
 \* functions whose parameters are expression closures (ext/customdecode): the arguments are not
 \* evaluated before the call, the function evaluates them itself (ext/tryfunc/README.md)
 LazyFns == {"try", "can"}
@@ -500,17 +503,17 @@ EvalCall(e, env) ==
        ELSE IF ex.v.k = "unk" THEN R(DynVal, FALSE)
        ELSE
        LET allv == fr.vs \o ex.v.e
-           np == Len(FnParams(e.s))
-           hasVar == FnVarParam(e.s) # <<>>
+           np == Len(FnParams(Canon(e.s)))
+           hasVar == FnVarParam(Canon(e.s)) # <<>>
        IN IF Len(allv) < np THEN RErrDyn                     \* not enough arguments (before arguments are evaluated)
           ELSE IF ~hasVar /\ Len(allv) > np THEN RErrDyn     \* too many arguments
           ELSE IF fr.oom THEN ROom
           ELSE
-          LET a == CallArgs(e.s, allv, 1, [vs |-> <<>>, err |-> fr.err, oom |-> FALSE, unk |-> FALSE])
+          LET a == CallArgs(Canon(e.s), allv, 1, [vs |-> <<>>, err |-> fr.err, oom |-> FALSE, unk |-> FALSE])
           IN IF a.oom THEN ROom
              ELSE IF a.err THEN RErrDyn
-             ELSE IF a.unk THEN R(Unk(FnRet(e.s)), FALSE)
-             ELSE FnImpl(e.s, a.vs)
+             ELSE IF a.unk THEN R(Unk(FnRet(Canon(e.s))), FALSE)
+             ELSE FnImpl(Canon(e.s), a.vs)
 
 \* --- templates ---
 \* Strip markers (hclsyntax/spec.md "Template Interpolations"): a "~" trims the
